@@ -9,6 +9,8 @@ Driver commands for the advisory notations and the simple relation converters
     native openssl|nginx <hex>
     advisory stubs                             → comma-separated version classes whose constructor is
                                                  the stub (= base `univers.versions.Version`)
+    stub <any of the lines above>              → the same with the stub for EVERY version class but
+                                                 `NginxVersion` (text layer only, independent of Layer A)
 
 `<hexes>` = hex fields separated by `;` (the `string_or_list` argument), `[]` = the empty list.
 `<items>` = `-` or comma-separated `star` / `<cmpr>:<hex str(version)>`.
@@ -104,9 +106,10 @@ def advStubs : List String :=
 def advStubNative (_ : String) (_ : List Char) : Except TErr (List TCon) := .error (.other "Delegated")
 
 /-- `cls.version_class` of a range class, by name -/
-def advVerOfClass (cls : String) : List Char → Except TErr (List Char) :=
+def advClassVer (mkVerOf : String → List Char → Except TErr (List Char)) (cls : String) :
+    List Char → Except TErr (List Char) :=
   match versionClassOf cls with
-  | some vc => advMkVerOf vc
+  | some vc => mkVerOf vc
   | none => fun _ => .error .TypeError
 
 def advCmprTag : Cmpr → String
@@ -125,19 +128,35 @@ def advResult : Except TErr (List TCon) → String
 def advUnhexList (t : String) : List (List Char) :=
   if t == "[]" then [] else (t.splitOn ";").map unhex
 
+/-- text-layer-only mode: every version class but `NginxVersion` is the stub -/
+def advStubMkVerOf (vc : String) : List Char → Except TErr (List Char) :=
+  if vc == "NginxVersion" then advMkVerOf vc else advStubVer
+
+def advAllStubs : List String :=
+  ((Gen.rangeClasses.filterMap (·.versionClass)).filter (fun vc => vc != "NginxVersion")).eraseDups
+
+def advisoryRun (mkVerOf : String → List Char → Except TErr (List Char))
+    (nativeOf : String → List Char → Except TErr (List TCon)) : List String → Option String
+  | ["advisory", "github", scheme, h] => some (advResult (fromGithub mkVerOf scheme (advUnhexList h)))
+  | ["advisory", "snyk", scheme, h] => some (advResult (fromSnyk mkVerOf scheme (advUnhexList h)))
+  | ["advisory", "gitlab", scheme, h] =>
+      some (advResult (fromGitlab mkVerOf nativeOf scheme (unhex h)))
+  | ["native", "deb", h] =>
+      some (advResult (debNatives (advClassVer mkVerOf "DebianVersionRange") (advUnhexList h)))
+  | ["native", "rpm", h] =>
+      some (advResult (rpmNatives (advClassVer mkVerOf "RpmVersionRange") (advUnhexList h)))
+  | ["native", "openssl", h] =>
+      some (advResult (opensslNative (advClassVer mkVerOf "OpensslVersionRange") (unhex h)))
+  | ["native", "nginx", h] => some (advResult (nginxNative nginxSemver (unhex h)))
+  | _ => none
+
+/-- the handler; a line prefixed with `stub` runs in the text-layer-only mode -/
 def advisoryCmdWith (nativeOf : String → List Char → Except TErr (List TCon)) :
     List String → Option String
   | ["advisory", "stubs"] => some (",".intercalate advStubs)
-  | ["advisory", "github", scheme, h] => some (advResult (fromGithub advMkVerOf scheme (advUnhexList h)))
-  | ["advisory", "snyk", scheme, h] => some (advResult (fromSnyk advMkVerOf scheme (advUnhexList h)))
-  | ["advisory", "gitlab", scheme, h] =>
-      some (advResult (fromGitlab advMkVerOf nativeOf scheme (unhex h)))
-  | ["native", "deb", h] => some (advResult (debNatives (advVerOfClass "DebianVersionRange") (advUnhexList h)))
-  | ["native", "rpm", h] => some (advResult (rpmNatives (advVerOfClass "RpmVersionRange") (advUnhexList h)))
-  | ["native", "openssl", h] =>
-      some (advResult (opensslNative (advVerOfClass "OpensslVersionRange") (unhex h)))
-  | ["native", "nginx", h] => some (advResult (nginxNative nginxSemver (unhex h)))
-  | _ => none
+  | ["stub", "advisory", "stubs"] => some (",".intercalate advAllStubs)
+  | "stub" :: rest => advisoryRun advStubMkVerOf nativeOf rest
+  | ws => advisoryRun advMkVerOf nativeOf ws
 
 def advisoryCmd : List String → Option String := advisoryCmdWith advStubNative
 
